@@ -223,3 +223,37 @@ Lemma nonvacuous :
   substring {| fields := [[[97;98;99;100]%N]]; from_array := false |} false 2 (Some (-5)) = Fail /\
   deref 1026 [Ref 0] 0 0 = Fail.
 Proof. vm_compute. repeat split; reflexivity. Qed.
+
+(** ** dereference through array subscripts *)
+Lemma aeval_no_panic fuel : forall env e d, 0 <= d <= MAX_DEPTH -> aeval fuel env e d <> Panic.
+Proof.
+  induction fuel as [|f IH]; intros env e d Hd; cbn [aeval]; [discriminate|].
+  assert (K : forall c : option aexp,
+    match c with
+    | None => Val 0
+    | Some (ALit v) => Val v
+    | Some e' => if d + 1 <? two32 then (if MAX_DEPTH <? d + 1 then Fail else aeval f env e' (d + 1)) else Panic
+    end <> Panic).
+  { intros [c|]; [|discriminate].
+    assert (E : (d + 1 <? two32) = true) by (apply Z.ltb_lt; unfold MAX_DEPTH, two32 in *; lia).
+    destruct c as [v|i|a ix]; [discriminate| |]; rewrite E;
+      (destruct (MAX_DEPTH <? d + 1) eqn:E2; [discriminate|]; apply Z.ltb_ge in E2; apply IH; lia). }
+  destruct e as [v|i|a ix]; [discriminate|apply K|].
+  apply bind_not_panic; [apply IH; exact Hd|].
+  intros k. destruct (k <? 0); [discriminate|apply K].
+Qed.
+
+Theorem no_panic_aeval : forall fuel env e, aeval fuel env e 0 <> Panic.
+Proof. intros. apply aeval_no_panic. unfold MAX_DEPTH. lia. Qed.
+
+(** the cycle that runs through a subscript ( next=(1 2 0); i='next[i]'; $(( next[i] )) ) trips
+    the recursion limit instead of recursing forever *)
+Definition cycle_env : aenv :=
+  {| scalars := [AElem 0 (AVar 0)]; arrays := [[ALit 1; ALit 2; ALit 0]] |}.
+Lemma aeval_subscript_cycle_fails : aeval 4000 cycle_env (AElem 0 (AVar 0)) 0 = Fail.
+Proof. vm_compute. reflexivity. Qed.
+
+(** a chain through subscripts that ends in a literal is evaluated *)
+Lemma aeval_subscript_chain :
+  aeval 50 {| scalars := [AElem 0 (AVar 1); ALit 2]; arrays := [[ALit 7; ALit 8; AVar 1]] |} (AVar 0) 0 = Val 2.
+Proof. vm_compute. reflexivity. Qed.
